@@ -7,9 +7,11 @@
 //!   failures.jsonl  cases on which the implementation violates the property's own oracle
 //!   stats.json      what was generated and reached (counters, samples, distinct cases)
 
-mod ctx;
+pub mod ctx;
 
-mod c19;
+mod props {
+    include!(concat!(env!("OUT_DIR"), "/props.rs"));
+}
 
 use ctx::{Ctx, Tier};
 use std::path::PathBuf;
@@ -54,15 +56,9 @@ fn main() {
     // panics inside `catch` are expected in some probes; keep stderr quiet
     std::panic::set_hook(Box::new(|_| {}));
     let mut ctx = Ctx::new(&prop, seed, tier, out);
-    let rule: &str = match prop.as_str() {
-        "C19" => {
-            match &case {
-                Some(c) => c19::replay(&mut ctx, c),
-                None => c19::run(&mut ctx),
-            }
-            "costs and witness stacks around every boundary (budget edge, padding-table regions 253/255/65538/65540, compact-size 252/253 and 65535/65536 of item count and size, consensus maximum); non-trivial = a padding is returned or the weight is within 3 of the budget; distinct by (cost, item lengths)"
-        }
-        _ => {
+    let rule = match props::dispatch(&prop, &mut ctx, case.as_deref()) {
+        Some(r) => r,
+        None => {
             eprintln!("unknown property {prop}");
             std::process::exit(2);
         }
